@@ -413,7 +413,25 @@ def enum_special():
 def family(tier, limit=2048):
     """The skeleton family used by the tree-layer checks: list of dict(name, bytes, outcome, toks)."""
     k = 3 if tier == "quick" else 4
-    s_seqs = [s for s, _ in enum_S(k, limit, small=True)]
+    s_all = enum_S(k, limit, small=True)
+    if tier == "thorough":
+        # S(4) has 15 k members, 10.7 k of them still-open 4-head prefixes. The thorough tier keeps all of S(3), every accepted member of
+        # S(4), every 4th rejected and every 16th still-open 4-head member (deterministic stride), so that each check stays within ~20-30 min.
+        keep, ce, co = [], 0, 0
+        for s_, st in s_all:
+            if len(s_) < 4 or st == "complete":
+                keep.append(s_)
+            elif st == "error":
+                ce += 1
+                if ce % 4 == 0:
+                    keep.append(s_)
+            else:
+                co += 1
+                if co % 16 == 0:
+                    keep.append(s_)
+        s_seqs = keep
+    else:
+        s_seqs = [s for s, _ in s_all]
     seqs = [(s, True) for s in s_seqs] + [(s, False) for s in enum_L() + enum_special()]
     seen = set()
     fam = []
